@@ -17,7 +17,7 @@ TRUSTED_BASE = [
 ]
 ASSUMPTIONS = [
     "theorems over exact reals about the specification; ties (several minimisers) are compared by distance, not by point",
-    "triangle closest point: the specification takes the plane projection when inside and the best edge otherwise; that this is the optimum over the whole triangle is proved for the inside case and checked by dense sampling per case otherwise",
+    "triangle closest point: the specification takes the plane projection when inside and the best edge otherwise; that this is the optimum over the whole closed triangle is proved for every triangle of non-zero area (C02_triangle) and lifted to the scan over all faces (C02_mesh); dense sampling per case remains as a cross-check",
 ]
 
 
